@@ -95,10 +95,6 @@ Definition relay (oa : oanswer) : response :=
      r_age := oa_age oa;
      r_contacted := true |}.
 
-(* an upstream 304 without an entry to refresh: UpdateMetadata fails, the client gets 502 *)
-Definition bad_gateway : response :=
-  {| r_status := 502; r_version := -1; r_label := None; r_cs := None; r_age := None; r_contacted := true |}.
-
 Definition new_entry (pol : policy) (now : Z) (oa : oanswer) : entry :=
   {| e_version := oa_version oa;
      e_stored_at := now;
@@ -130,13 +126,14 @@ Definition get_step (pol : policy) (now : Z) (st : option entry) (oa : oanswer) 
         (Some e', serve_entry HsRevalidated 304 e' now true, ERenewed)
       else full_answer pol now st HsRevalidated oa
   | None =>
-      if oa_status oa =? 304 then (None, bad_gateway, ENone)
-      else full_answer pol now None HsMiss oa
+      (* (a 304 without an entry to refresh takes the ErrNotCacheable route like any answer that is
+         not stored - C09's repair: the origin's answer to the repeated request is relayed) *)
+      full_answer pol now None HsMiss oa
   end.
 
 (* any other method: straight to the origin, never stored (the cache key contains the method) *)
 Definition other_step (st : option entry) (oa : oanswer) : option entry * response * effect :=
-  if oa_status oa =? 304 then (st, bad_gateway, ENone) else (st, relay oa, ENone).
+  (st, relay oa, ENone).
 
 Definition step (s : hstate) (x : hstep) : hstate * option event :=
   match x with
